@@ -134,7 +134,7 @@ def run_verus(unit, cfg, text, scratch, rlimit=None, seed=None, extra=None):
     except Exception:
         r.solver_s = 0.0
     diags = []
-    have_results = bool(vr) or ("verification results::" in p.stderr)
+    have_results = ("verification results::" in p.stderr) or (bool(vr) and not (vr.get("encountered-error") and vr.get("verified", 0) == 0 and vr.get("errors", 0) == 0) and not vr.get("encountered-vir-error"))
     for l in p.stderr.split("\n"):
         l = l.strip()
         if l.startswith("{") and '"$message_type"' in l:
@@ -377,6 +377,9 @@ def load_known():
         for l in open(fn):
             l = l.strip()
             if not l or l.startswith("#"):
+                continue
+            if l.startswith("fixed:"):
+                fixed.append({"status": "fixed", "text": l})
                 continue
             e = json.loads(l)
             (known if e.get("status") == "known" else fixed).append(e)
